@@ -1,6 +1,6 @@
 (* Extraction of the executable raw-data model (parser, encoder) for the correspondence drivers.
    ExtrOcamlBasic only: Z / positive / nat stay the extracted inductives. *)
 From Coq Require Import ExtrOcamlBasic ZArith List.
-From PV.Model Require Import RawFormat RawParser.
+From PV.Model Require Import RawFormat RawParser RawReader.
 Extraction Language OCaml.
-Extraction "rawmodel.ml" read_bes_raw_gen parse_gen fuel_for enc_event enc_block enc_file.
+Extraction "rawmodel.ml" read_bes_raw_gen parse_gen fuel_for enc_event enc_block enc_file arrays_gen concatenate_gen reader_fuel.
